@@ -16,4 +16,8 @@ theorem tie_countedUnderLock : Generated.countedUnderLock ≠ 0 := by decide
 /-- `Shutdown` tests and sets the flag inside its critical section: the model's `downEnter` is one step -/
 theorem tie_shutdownFlagUnderLock : Generated.shutdownFlagUnderLock ≠ 0 := by decide
 
+/-- the read loop counts a datagram's task before the `go` statement that starts it (second audit, finding 4: the
+    model's `serveRecv` merges the count and the start; a count taken by the new goroutine itself would not be it) -/
+theorem tie_activeAddBeforeGo : Generated.activeAddBeforeGo ≠ 0 := by decide
+
 end RV.Facts.C07
